@@ -26,7 +26,29 @@ BIND = (" Every enumerated case state is executed against the real RaggedArray u
         "a still-pending selection of a larger array / alternative call spelling) and compared with the outcome level A demands; a seeded "
         "driver adds all dtypes, larger shapes and extreme values whose recorded outcomes TLC judges with the same operator (Trace_Ragged).")
 
+def _heap_check(prop, cfg, n_quick, n_thorough, text):
+    def run():
+        t = Timer()
+        res = runner.Result(prop)
+        runner.heap_model_stage(res, prop, cfg)
+        runner.heap_trace_stage(res, prop, n_quick if Q else n_thorough)
+        return runner.finish(res, text,
+            "case = one program (sequence of API steps on a heap of handles); distinct by step sequence; non-trivial = at least one step after construction "
+            "(model stage) / at least two steps after construction (trace stage); every live handle is observed after the program (model stage) or after every step (trace stage)",
+            A_REGIME + ["content of pending selections is observed through copy.deepcopy (shadow read), which does not materialise the original"], t.s())
+    return run
+
+
+HEAP_TEXT = ("TLC explores every program over the configured alphabet of the heap machine (spec/abs/RaggedHeap.tla: level A heap of values + level M "
+             "buffers / pending views / Materialise), checking RefinesModuloStale, WrongOnlyIfStale, AliasesAgree, ContigOwnBuffer, DerivedIsFresh and the "
+             "action properties ReadPure, AssignFrame, HeapOnlyGrows; every reachable state is one program that is replayed into the real RaggedArray "
+             "and every live handle compared with level A. A seeded driver runs deeper random programs (chained selections of selections, all selector "
+             "kinds, assignments to any handle, reads anywhere) observing every handle after every step; TLC walks the state machine along each recorded "
+             "program (Trace_Heap). Reads are free actions, so all placements of reads are explored and all are judged against the same read-free level-A content.")
+
 CHECKS = {
+    "C06": _heap_check("C06", "C06", 3000, 40000, HEAP_TEXT),
+    "C10": _heap_check("C10", "C10", 3000, 40000, HEAP_TEXT),
     "C01": _ragged_check("C01", True, 3000, 30000,
         "TLC enumerates shape x dtype x palette x constructor x read-back of MC_C01 and checks GeometryLemma (rows tile the buffer, "
         "flat<->(row,col) maps are inverse) and SizeMismatchRefused on the model." + BIND,
